@@ -427,6 +427,9 @@ class MailboxSet(MailboxSetInterface[MailboxData]):
                     self._set[after_name] = self._inbox
                     self._inbox = MailboxData(
                         self._content_cache, self._thread_cache)
+                    # RFC 3501 6.3.5: inferior hierarchical names of INBOX
+                    # are unaffected by a rename of INBOX.
+                    break
                 else:
                     self._set[after_name] = self._set[before_name]
                     del self._set[before_name]
